@@ -41,6 +41,9 @@ def gen_cfg(rng, tier: str, big: bool = False) -> dict:
         # where the data area starts, in clusters after the BAT (0 = right after metadata, rounded up to a cluster)
         "data_lead": rng.choice([0, 0, 0, 1, 2]),
         "in_use": rng.random() < 0.2,
+        # version 1 stores a 32-bit size; the four bytes after it are not part of the header ("Unused" in the SDK layout,
+        # masked off by QEMU) and hold whatever the producer left there
+        "v1_unused": rng.choice([0, 0, 0, 1, 0xDEADBEEF]) if ver == 1 else 0,
     }
 
 
@@ -61,7 +64,7 @@ def render(cfg: dict, layer: Layer, view: View, parent: dict | None = None, name
     ver = cfg["ver"]
     if ver == 1:
         assert layer.n < (1 << 32)
-        size_field = struct.pack("<II", layer.n, 0)
+        size_field = struct.pack("<II", layer.n, cfg.get("v1_unused", 0))
     else:
         size_field = struct.pack("<Q", layer.n)
     hdr = struct.pack("<16sIIIII", SIG_V1 if ver == 1 else SIG_V2, 2, 16, max(1, layer.n // (16 * 32)), cl, ncl)
